@@ -48,6 +48,13 @@ func isStringSlice(t types.Type) bool {
 	return ok && isStringType(sl.Elem())
 }
 
+func (p *Program) tokenAnalysisCached() *tokenAnalysis {
+	if p.tokCache == nil {
+		p.tokCache = p.tokenAnalysis()
+	}
+	return p.tokCache
+}
+
 func (p *Program) tokenAnalysis() *tokenAnalysis {
 	ta := &tokenAnalysis{p: p, val: map[ssa.Value]tokState{}, field: map[*types.Var]tokState{}, param: map[*ssa.Parameter]tokState{}, cutAt: map[ssa.Value]ssa.Instruction{}, tuple: map[ssa.Value][]tokState{}}
 	cg := p.callGraph()
